@@ -179,6 +179,10 @@ def read_graphs(filename):
     while i < n_lines:
         # Move to the start of the next graph header
         while i < n_lines and not lines[i].lstrip().startswith('#'):
+            # (only blank lines may precede a header: anything else, e.g. a first header line that lost its '#', belongs to no graph)
+            if lines[i].strip() != "":
+                utils.logger.error(f"{__name__}: line {i + 1} of {filename} is outside every graph block (a block starts with a header line prefixed by '#').")
+                raise ValueError(f"Line {i + 1} of {filename} is outside every graph block (a block starts with a header line prefixed by '#').")
             i += 1
         if i >= n_lines:
             break
